@@ -25,19 +25,35 @@ def _sum(xs):
     return t
 
 
-def _region_xbnds(env, n, h, tag):
-    """Boundaries of a pin-bundle region with n edge cells per side (real calculate_xbnds)."""
+def _region_xbnds(env, n, h, tag, nduct=1):
+    """Boundaries of a pin-bundle region with n edge cells per side (real calculate_xbnds).  With several ducts the
+    inner walls have their own (smaller, GEOM-ordered) corner lengths and flat-to-flat sizes: the boundaries must describe
+    the outermost wall."""
     P = env.pos(tag + 'pitch', hi=10)
     wc = (h - n * P) / 2                    # GEOM: 2 wc + n P = hex side (proved in C08)
     env.assume(wc > 0)
     typ = np.array(([3] * n + [4]) * 6)
     sc = StubSelf(n_sc={'duct': {'total': 6 * (n + 1)}}, type=np.concatenate([np.zeros(5, dtype=int), typ]))
-    wcorner = np.empty((1, 2), dtype=object)
-    wcorner[0, 0] = wc
-    wcorner[0, 1] = wc
+    wcorner = np.empty((nduct, 2), dtype=object)
+    ftf = []
+    prev = None
+    for i in range(nduct - 1):
+        a = env.pos('%swcorner%d_in' % (tag, i), hi=10)
+        b = env.pos('%swcorner%d_out' % (tag, i), hi=10)
+        env.assume(b > a)
+        if prev is not None:
+            env.assume(a > prev)
+        prev = b
+        wcorner[i, 0], wcorner[i, 1] = a, b
+        ftf.append([0.0, env.pos('%sinner_ftf%d' % (tag, i), hi=10)])
+    wcorner[nduct - 1, 0] = wc if prev is None else env.pos('%swcorner_last_in' % tag, hi=10)
+    wcorner[nduct - 1, 1] = wc
+    if prev is not None:
+        env.assume(wcorner[nduct - 1, 0] > prev)
+        env.assume(wc > wcorner[nduct - 1, 0])
     if env.mode == 'replay':
         wcorner = wcorner.astype(float)
-    s = StubSelf(subchannel=sc, pin_pitch=P, d={'wcorner': wcorner}, duct_ftf=[[0.0, h]])
+    s = StubSelf(subchannel=sc, pin_pitch=P, d={'wcorner': wcorner}, duct_ftf=ftf + [[0.0, h]])
     return rrm.RoddedRegion.calculate_xbnds(s), [P] * n + [2 * wc]
 
 
@@ -84,7 +100,7 @@ def body_map(env):
         env.stub('sqrt(3) replaced by 1 and the duct flat-to-flat by the hex side length h (only their quotient is used)')
         h = env.pos('hex_side', hi=100)
         if reg[0] == 'rodded':
-            xr, wr = _region_xbnds(env, reg[1], h, 'region_')
+            xr, wr = _region_xbnds(env, reg[1], h, 'region_', env.params.get('region_ducts', 1))
             wr = wr * 6
         else:
             xr, _ = _unrodded_xbnds(env, h)
@@ -152,6 +168,12 @@ def instances(tier):
             for rel in (('equal', 'distinct') if same else (None,)):
                 inst.append(dict(label='map[region=%s,gap=%s%s]' % ('-'.join(map(str, r)), ''.join(map(str, g)), ',' + rel if rel else ''),
                                  body=body_map, params={'region': r, 'gap': g, 'rel': rel}, max_paths=512, max_depth=400, timeout_ms=60000))
+    # regions with two and three duct walls: the boundaries must describe the outermost wall
+    for nd in ((2,) if tier == 'quick' else (2, 3)):
+        for r, g, rel in ((('rodded', 1), (1,) * 6, 'equal'), (('rodded', 1), (2, 2, 1, 1, 2, 2), None), (('rodded', 2), (3,) * 6, None)):
+            inst.append(dict(label='map[region=%s,region ducts=%d,gap=%s%s]' % ('-'.join(map(str, r)), nd, ''.join(map(str, g)), ',' + rel if rel else ''),
+                             body=body_map, params={'region': r, 'gap': g, 'rel': rel, 'region_ducts': nd}, max_paths=512, max_depth=400,
+                             timeout_ms=60000))
     return inst
 
 
@@ -165,7 +187,8 @@ def main():
                      'non-negativity, rows summing to one, adjointness dx_c*F[c,f] = dx_f*C[f,c] and preservation of the '
                      'perimeter-weighted integral are SMT queries per entry.'),
         bounds={'region cells per side': 'corner-only (unrodded), 1, 2 (quick) / +3', 'gap cells per side': '0..3 (quick) / 0..5',
-                'mixed neighbours': 'per-side gap meshes with two different cell counts'},
+                'mixed neighbours': 'per-side gap meshes with two different cell counts',
+                'region duct walls': '1; 2 (quick) / 2..3 for three mesh pairs (inner walls carry their own corner lengths)'},
         outside=['ring counts up to 15 are not enumerated (claim is per cells-per-side bound)',
                  'equal cell counts with pitches differing by less than 1 % (np.allclose shortcut band: rtol 1e-5 / atol 1e-8 m)',
                  'a region mesh finer than the gap mesh on some side (the gap takes the finer mesh by construction: C09)'],
